@@ -71,8 +71,116 @@ class Terms:
         l = op_local(op)
         if l is None:
             p = op_place(op)
+            r = self._through_aggregates(p, depth) if depth < 10 else None
+            if r is not None:
+                return r
             return ("place", repr(p))
         return self.term_local(l, depth)
+
+    def _leaf_defs(self, l, seen=None):
+        """the aggregate rvalues that can be the value of local l (following plain moves); None if some definition is
+        not an aggregate (a call result, a field read, ..)"""
+        seen = seen or set()
+        if l in seen:
+            return []
+        seen.add(l)
+        out = []
+        ds = self.b.defs().get(l, [])
+        if not ds:
+            return None
+        for d in ds:
+            if d[2] == "call" and (d[3].get("fn") or "").endswith("FromResidual::from_residual"):
+                # `?` propagating a failure: the value is the residual variant (Err / None), never Ok / Some
+                res = d[3].get("res") or ""
+                out.append({"k": "agg", "ak": "adt", "var": "Err" if "Result<" in res else "None", "fn": [], "ops": []})
+                continue
+            if d[2] != "assign":
+                return None
+            rv = d[3]
+            if rv["k"] == "agg":
+                out.append(rv)
+            elif rv["k"] == "use" and op_local(rv["a"]) is not None:
+                sub = self._leaf_defs(op_local(rv["a"]), seen)
+                if sub is None:
+                    return None
+                out += sub
+            else:
+                return None
+        return out
+
+    def _through_aggregates(self, pl, depth):
+        """(x as V).field where every definition of x is an aggregate built in this (flattened) body: the field IS the
+        operand the aggregate(s) building variant V were built from.  This is what makes a value returned through
+        `Ok(Some(n))` by a spliced-in helper the same term as `n`.  Several candidate aggregates are followed in
+        parallel (Ok(None) and Ok(Some(n)) both build `Ok`; only one of them survives the inner `as Some`); the result
+        is used only when all surviving candidates agree on one term."""
+        if not isinstance(pl, dict):
+            return None
+        out = self._ta(pl["l"], list(pl["p"]), depth, 0)
+        if out is not None and len(out) == 1:
+            return next(iter(out))
+        return None
+
+    def _ta(self, l, projs, depth, fuel):
+        if fuel > 12 or depth > 10:
+            return None
+        for _ in range(8):
+            ds = self.b.defs().get(l, [])
+            # a plain copy of another place: continue from that place
+            # (jump threading duplicates blocks: several textually identical definitions count as one)
+            if ds and all(d[2] == "assign" and d[3]["k"] == "use" and op_place(d[3]["a"]) is not None and
+                          op_place(d[3]["a"]) == op_place(ds[0][3]["a"]) for d in ds):
+                q = op_place(ds[0][3]["a"])
+                if isinstance(q, int):
+                    l = q
+                else:
+                    l, projs = q["l"], list(q["p"]) + projs
+                continue
+            # `?`: (Try::branch(x) as Continue).0 is the payload of x's Ok / Some
+            if ds and projs[:1] == ["d|Continue"] and all(d[2] == "call" and (d[3].get("fn") or "").endswith("Try::branch") for d in ds):
+                srcs = {op_local(d[3]["args"][0]) for d in ds}
+                ress = {d[3].get("res") or "" for d in ds}
+                if len(srcs) == 1 and None not in srcs and len(ress) == 1:
+                    res = next(iter(ress))
+                    if "core::result::Result<" in res:
+                        l, projs = next(iter(srcs)), ["d|Ok", "f|core::result::Result|Ok|0"] + projs[2:]
+                        continue
+                    if "core::option::Option<" in res:
+                        l, projs = next(iter(srcs)), ["d|Some", "f|core::option::Option|Some|0"] + projs[2:]
+                        continue
+                return None
+            break
+        if not projs:
+            return {self.term_local(l, depth + 1)}
+        leaves = self._leaf_defs(l)
+        if leaves is None:
+            return None
+        if len(projs) >= 2 and projs[0].startswith("d|") and projs[1].startswith("f|"):
+            var, fld = projs[0][2:], projs[1].split("|", 3)[3]
+            cands = [(rv, rv["fn"].index(fld)) for rv in leaves if rv.get("ak") == "adt" and rv.get("var") == var and fld in rv.get("fn", [])]
+            rest = projs[2:]
+        elif projs[0].startswith("t|"):
+            if any(rv.get("ak") != "tuple" for rv in leaves):
+                return None
+            cands = [(rv, int(projs[0][2:])) for rv in leaves]
+            rest = projs[1:]
+        else:
+            return None
+        out = set()
+        for rv, i in cands:
+            op = rv["ops"][i]
+            if not rest:
+                out.add(self.term(op, depth + 1))
+                continue
+            npl = op_place(op)
+            if npl is None:
+                continue      # a literal has no such sub-place: this candidate cannot be the one being read
+            sub = self._ta(npl if isinstance(npl, int) else npl["l"], ([] if isinstance(npl, int) else list(npl["p"])) + rest, depth + 1, fuel + 1)
+            if sub is None:
+                return None
+            out |= sub
+        return out
+
 
     def term_local(self, l, depth=0):
         b = self.b
